@@ -70,7 +70,10 @@ def Closures.ofList : List (String × List String × Expr) → Closures
 
 /-- Builtin operators are the identifiers starting with `#` (dead_code.rs:264,
     base/src/symbol.rs:282 `is_primitive`). -/
-def isBuiltinName (x : String) : Bool := x.startsWith "#"
+def isBuiltinName (x : String) : Bool :=
+  match x.toList with
+  | '#' :: _ => true
+  | _ => false
 
 /-- `some b` when the callee is a builtin operator identifier. -/
 def builtinCallee : Expr → Option String
@@ -181,16 +184,26 @@ def closureEnv (env : Env) (group : Closures) : Closures → Env
   | .nil => []
   | .cons n _ _ rest => (n, .clos env group n) :: closureEnv env group rest
 
+/-- Applying a function value: the builtin operators are pure functions of their arguments, every
+    other callee is delegated to `call`. -/
+def applyV (call : Caller) (fv : Value) (vs : List Value) : R Value :=
+  match fv with
+  | .ext b => if isBuiltinName b then ⟨builtin b vs, []⟩ else call fv vs
+  | _ => call fv vs
+
+/-- Value of an identifier: builtin operator names denote themselves, a name the module does
+    not bind is a global of the host. -/
+def identV (env : Env) (x : String) : Value :=
+  if isBuiltinName x then .ext x else lookupD env x
+
 mutual
 /-- Strict, left-to-right evaluation of a core expression; every non-builtin call is delegated to
     `call` (so the evaluator itself is a structural recursion). -/
 def eval (call : Caller) (env : Env) : Expr → R Value
   | .const l => R.pure (.lit l)
-  | .ident x => R.pure (lookupD env x)
+  | .ident x => R.pure (identV env x)
   | .call f args =>
-    match builtinCallee f with
-    | some b => (evalList call env args).bind fun vs => ⟨builtin b vs, []⟩
-    | none => (eval call env f).bind fun fv => (evalList call env args).bind fun vs => call fv vs
+    (eval call env f).bind fun fv => (evalList call env args).bind fun vs => applyV call fv vs
   | .data c rows args => (evalList call env args).bind fun vs => R.pure (.data c rows vs)
   | .letE x e body => (eval call env e).bind fun v => eval call ((x, v) :: env) body
   | .letRec cs body => eval call (closureEnv env cs cs ++ env) body
